@@ -159,4 +159,24 @@ def serveTimedOnce (deadline : Nat) : Nat → List Nat → Nat
   | _, [] => 0
   | now, lat :: rest => if now + lat ≤ deadline then 1 + serveTimedOnce deadline (now + lat) rest else 0
 
+/-! ### The per-exchange context flags -/
+
+/-- The three flags of a `martian.Context` and the public calls that set them (`context.go`): each call
+sets its own flag, nothing ever clears one. -/
+structure Flags where
+  skipRoundTrip : Bool := false
+  skipLogging : Bool := false
+  apiRequest : Bool := false
+  deriving Repr, DecidableEq
+
+inductive CtxCall | skipRoundTrip | skipLogging | apiRequest
+  deriving Repr, DecidableEq
+
+def Flags.call (f : Flags) : CtxCall → Flags
+  | .skipRoundTrip => { f with skipRoundTrip := true }
+  | .skipLogging => { f with skipLogging := true }
+  | .apiRequest => { f with apiRequest := true }
+
+def Flags.calls (f : Flags) (cs : List CtxCall) : Flags := cs.foldl Flags.call f
+
 end Martian.Proxy.Wire
